@@ -112,7 +112,7 @@ def cluster(draw, g, mode2D, names):
     for i in range(n):
         name = f"o{len(names)}"
         names.append(name)
-        dims = [draw(U(0.7, 1.6)) * step for _ in range(3)]
+        dims = [draw(U(0.65, 1.45)) * step for _ in range(3)]
         k = slots[i] - (n - 1) / 2
         hx, hy = cx + k * step * math.cos(th), cy + k * step * math.sin(th)
         w = step * draw(U(0.3, 1.6))
@@ -205,11 +205,12 @@ def theatre(draw, g, mode2D, names, have_ego):
             "pos": [const(cx + draw(st.sampled_from([0.0, 0.0, draw(U(-2, 2))]))), const(cy + dw), const(cz)],
             "yaw": const(draw(st.sampled_from([0.0, 0.0, draw(U(-0.4, 0.4))]))), "pitch": const(0.0),
             "roll": const(0.0), "allowCollisions": False,
-            "occluding": draw(st.integers(0, 5)) != 0}
+            "occluding": hidden or draw(st.integers(0, 5)) != 0}
     names.append(wall["name"])
     tname = f"o{len(names)}"
     names.append(tname)
-    ylo = cy + dw + draw(st.sampled_from([1.2, 1.5, 2.5, -2.0]))
+    # (a target required to be hidden starts behind the wall, otherwise nothing could hide it)
+    ylo = cy + dw + draw(st.sampled_from([1.2, 1.5, 2.5] + ([] if hidden else [-2.0])))
     yhi = ylo + draw(U(0.5, 8.0))
     # half-width of the wall's shadow where the target's range begins
     shadow = wall["dims"][0] / 2 * max(1.0, (ylo - cy) / dw)
